@@ -48,6 +48,9 @@ CHECKS = {
  "C13": ("exploration", "4 C13", "simulated recording sessions: live stream with seeded inter-arrival gaps on the driver's virtual clock inside a synctest bubble (incl. the stop function's one-second sleep), checked against the receiver model, exact tick conversion, the strict SMF parser and read-back",
    "Samples streams (channel, real-time, system common, sysex, stray data), chunk schedules, gaps from 0 ms to 10 min, tempi and resolutions; the recorded file is validated by the same strict parser as C03.",
    "gaps bounded so that tick counts fit the format's maximum delta; non-channel traffic may be stored or dropped"),
+ "C17": ("exploration", "4 C17", "(a) seeded lifecycle call histories on the in-memory driver checked op by op against a lifecycle reference model; (b) the process-backed driver (instrumented at check time via go build -overlay) run under a seeded goroutine scheduler on a fake clock with a simulated helper process (cannot start / slow / stalls / dies), race detector on",
+   "Samples call histories (a) and interleavings x helper behaviours (b). In (b) every scheduling decision at an instrumented synchronisation point comes from the seed, the race detector stays fully effective inside the deterministic run (fake-time yields create no happens-before), liveness is decided as 'every lifecycle call returns within a fake-time budget'.",
+   "helper binary and exec.Cmd are stubs; plain memory accesses between two synchronisation points are ordered only by the race detector's report"),
 }
 def main():
     checks = []
@@ -80,7 +83,7 @@ def main():
         "notes": "Exit codes: 0 property held on everything explored, 1 VIOLATION (replay file given), 2 infrastructure trouble (never a VIOLATION). VERIF_SEED selects the seed, VERIF_RUNS overrides the run count.",
     }
     claimed = set(CHECKS)
-    for pid in ["C17"]:
+    for pid in []:
         if pid not in claimed:
             m["not_applicable"].append({"property_id": pid, "reason": "claimed in DESIGN.md but its check is not built yet in this commit (work in progress); not a judgement that the technique does not apply"})
     m["not_applicable"].sort(key=lambda x: x["property_id"])
